@@ -88,14 +88,14 @@ var typeName = map[int64]string{0: "string", 1: "list", 2: "set", 3: "zset", 4: 
 // reference grammar per opcode (what follows the opcode byte)
 var opRef = map[int64]string{
 	0xf7: "Len Star{Len@a Sw@a{1:Len|2:Len|3:Fix4|4:Fix8|5:Str}}", // module aux: module id, then opcode-tagged fields until EOF(0)
-	0xf8: "Len",                                                    // idle
-	0xf9: "U8",                                                     // freq
-	0xfa: "Str Str",                                                // aux key, aux value
-	0xfb: "Len Len",                                                // resize db
-	0xfc: "Fix8LE",                                                 // expire ms
-	0xfd: "Fix4LE",                                                 // expire s
-	0xfe: "Len",                                                    // select db
-	0xff: "",                                                       // eof
+	0xf8: "Len",                                                   // idle
+	0xf9: "U8",                                                    // freq
+	0xfa: "Str Str",                                               // aux key, aux value
+	0xfb: "Len Len",                                               // resize db
+	0xfc: "Fix8LE",                                                // expire ms
+	0xfd: "Fix4LE",                                                // expire s
+	0xfe: "Len",                                                   // select db
+	0xff: "",                                                      // eof
 }
 var opName = map[int64]string{0xf7: "MODULE_AUX", 0xf8: "IDLE", 0xf9: "FREQ", 0xfa: "AUX", 0xfb: "RESIZEDB", 0xfc: "EXPIRETIME_MS", 0xfd: "EXPIRETIME", 0xfe: "SELECTDB", 0xff: "EOF"}
 
@@ -142,7 +142,9 @@ func flat(term string) string {
 	return strings.Join(tokRe.FindAllString(strings.ReplaceAll(t, "Ret", ""), -1), " ")
 }
 
-func trimRet(s string) string { return strings.TrimSpace(strings.TrimSuffix(strings.TrimSpace(s), "Ret")) }
+func trimRet(s string) string {
+	return strings.TrimSpace(strings.TrimSuffix(strings.TrimSpace(s), "Ret"))
+}
 
 // compare records the obligation for one extracted term.
 func compare(c *core.Ctx, rule, key string, pos token.Pos, got, want string, ex *grammar.Extractor, what string) {
@@ -701,7 +703,9 @@ func r6(c *core.Ctx) {
 	if fn := c.Func(pkg, "Loader", "Footer"); fn != nil {
 		info := fn.Pkg.TypesInfo
 		g := cfgq.Of(c.Program, fn)
-		sum := g.Points(g.HasCall(func(call *ast.CallExpr, _ types.Object) bool { return pat.Expr("_l.crc.Sum64()").Match(info, call, nil) != nil }))
+		sum := g.Points(g.HasCall(func(call *ast.CallExpr, _ types.Object) bool {
+			return pat.Expr("_l.crc.Sum64()").Match(info, call, nil) != nil
+		}))
 		rd := g.Points(g.HasCall(func(call *ast.CallExpr, callee types.Object) bool {
 			f, _ := callee.(*types.Func)
 			return f != nil && core.IsFunc(f, pkg, "rdbReader", "readUint64")
